@@ -76,9 +76,12 @@ func (f *Font) Widths() []float64 {
 // in PDF glyph space units (1/1000th of a text space unit).
 func (f *Font) WidthsPDF() []float64 {
 	widths := make([]float64, f.NumGlyphs())
-	q := f.FontMatrix[0] * 1000
-	for gid, glyph := range f.Glyphs {
-		widths[gid] = glyph.Width * q
+	for gid, g := range f.Glyphs {
+		fm := f.FontMatrix
+		if f.IsCIDKeyed() {
+			fm = f.FontMatrices[f.FDSelect(glyph.ID(gid))].Mul(f.FontMatrix)
+		}
+		widths[gid] = g.Width * (fm[0] * 1000)
 	}
 	return widths
 }
